@@ -397,3 +397,20 @@ M('C11', 'message-root-from-certificate', 'mithril-client/src/message.rs',
   """                ProtocolMessagePartKey::CardanoBlocksTransactionsMerkleRoot,
                 verified_transactions.certified_merkle_root().to_string(),""", """                ProtocolMessagePartKey::CardanoBlocksTransactionsMerkleRoot,
                 transactions_proofs_certificate.protocol_message.get_message_part(&ProtocolMessagePartKey::CardanoBlocksTransactionsMerkleRoot).cloned().unwrap_or_default(),""", ['message:'], 'message recomputed from itself')
+
+# ---------------------------------------------------------------- C12
+DBD = 'internal/cardano-node/mithril-cardano-node-internal-database/src/'
+M('C12', 'beacon-filter-strict', DBD + 'digesters/cardano_immutable_digester.rs',
+  '        .filter(|f| f.number <= up_to_file_number)', '        .filter(|f| f.number < up_to_file_number)', ['list:'], 'beacon trio excluded')
+M('C12', 'beacon-file-not-required', DBD + 'digesters/cardano_immutable_digester.rs',
+  'Some(last_immutable_file) if last_immutable_file.number < up_to_file_number => {', 'Some(last_immutable_file) if last_immutable_file.number + 1 < up_to_file_number => {', ['beacon-exists'], 'missing beacon file tolerated')
+M('C12', 'ord-by-path-only', DBD + 'entities/immutable_file.rs',
+  'self.number.cmp(&other.number).then(self.path.cmp(&other.path))', 'self.path.cmp(&other.path)', ['immutable_file:ord'], 'order depends on the directory path only')
+M('C12', 'cache-error-fatal', DBD + 'digesters/cardano_immutable_digester.rs',
+  """                    BTreeMap::from_iter(immutables.into_iter().map(|i| (i, None)))
+                }
+            },""", """                    BTreeMap::new()
+                }
+            },""", ['fetch:fallback'], 'cache read error drops every file')
+M('C12', 'unsorted-listing', DBD + 'entities/immutable_file.rs',
+  '        files.sort();\n\n        Ok(files)', '        Ok(files)', ['list_all:sort'], 'directory order reaches the digest list')
